@@ -57,6 +57,16 @@ func commonVal(r *core.Rand, a, b *dyn.TypeInfo) dyn.Val {
 			lim = min(maxPosMag(a), maxPosMag(b))
 		}
 	}
+	if u, f := a, b; !neg && ((u.Kind == dyn.KUint && u.Bits == 64 && f.Kind == dyn.KFloat) || (b.Kind == dyn.KUint && b.Bits == 64 && a.Kind == dyn.KFloat)) && r.Chance(1, 4) {
+		// a 64-bit unsigned type against a float: integers far above 2^53 (up to
+		// and beyond 2^63) with at most 14 significant bits are exact in both
+		k := uint(40 + r.Intn(24))
+		big := uint64(1)<<k + uint64(r.Intn(1<<12))<<(k-13)
+		if a.Kind == dyn.KUint {
+			return dyn.UintVal(big)
+		}
+		return dyn.FloatVal(float64(big))
+	}
 	var mag uint64
 	switch r.Intn(6) {
 	case 0:
